@@ -1017,6 +1017,21 @@ class Module(ABC):
         # Override `comp_index` to just be a consecutive list.
         all_nodes["global_comp_index"] = np.arange(len(all_nodes))
 
+        # Update the groups. The compartments of the modified branch are replaced by
+        # the new ones and all subsequent compartments are shifted.
+        end_idx = start_idx + number_deleted
+        for group_name, group_inds in self.base.groups.items():
+            in_branch = (group_inds >= start_idx) & (group_inds < end_idx)
+            new_inds = group_inds[~in_branch]
+            new_inds = np.where(
+                new_inds >= end_idx, new_inds + ncomp - number_deleted, new_inds
+            )
+            if np.any(in_branch):
+                new_inds = np.concatenate(
+                    [new_inds, np.arange(start_idx, start_idx + ncomp)]
+                )
+            self.base.groups[group_name] = np.sort(new_inds)
+
         # Update compartment structure arguments.
         ncomp_per_branch[branch_indices] = ncomp
         ncomp = int(np.max(ncomp_per_branch))
